@@ -13,6 +13,7 @@ import dfdrv as dd
 from dfdrv import DIMPOOL, fl_dims_t
 
 ID = "C12"
+THOROUGH_ROUNDS = 2      # rounds of generate() in the thorough tier (new random draws each round)
 COQ_MODULE = "Corr.DFC"
 SHARD = 150
 EXHAUSTIVE = True
